@@ -9,6 +9,9 @@ Decided clauses:
        crypto_sign_ed25519_open zeroes its outputs on failure (C02 R2.4/R2.5 instances).
   R6.2 key generation from a seed and signing (plain and pre-hashed) cannot reach a random
        source, an entropy/time external, or any store to / load from process-global mutable state.
+  R6.4 combined-mode crypto_sign moves the message to sm + 64 first and hands *that copy* to the detached signer, on every path:
+       "every signature so produced verifies" also when the caller's m lies inside sm (the signer hashes the message twice and
+       writes the signature halves into sm[0..64) in between).
 NOT decided: RFC 8032 values, scalar / group arithmetic, that has_small_order(check) *means* the
 cofactored equation.
 """
@@ -133,6 +136,10 @@ def run(ctx, chk):
     vreach = cg.reachable([prog.need(s, rule="R6.2-g") for s in vstarts])
     chk.floor("R6.2-g", "functions reachable from the verification entry points", len(vreach), 30)
     chk.floor("R6.2", "functions reachable from signing / seeded key generation", len(reach), 40)
+    # ---- R6.4 combined-mode signing signs a copy no later write can disturb (the detached signer reads the message twice and writes
+    # R, A, S into sm[0..64) in between): shared with C13 R13.1
+    from . import c13
+    c13.sign_move_rule(prog, chk, "R6.4")
     bad = sorted(x for x in ext if x in ENTROPY_EXT or x.startswith("randombytes"))
     rb = [k for k in reach if (k if isinstance(k, str) else k[1]).startswith("randombytes")]
     chk.ob("R6.2", fns[0], "signing and seeded key generation reach no random / entropy / time source",
